@@ -281,6 +281,12 @@ def concretize(model, v, max_len=12):
         if z3.is_true(model.eval(v.isnone, model_completion=True)):
             return None
         return concretize(model, v.val)
+    if isinstance(v, V.SCases):
+        # a variant value: the alternative whose guard the model makes true (guards are exclusive and exhaustive)
+        for g, alt in v.cases:
+            if z3.is_true(model.eval(g, model_completion=True)):
+                return concretize(model, alt)
+        return concretize(model, v.cases[-1][1])
     if isinstance(v, SOpaque):
         return f"<{v.kind}:{model.eval(v.e, model_completion=True)}>"
     if isinstance(v, tuple):
